@@ -273,13 +273,9 @@ Definition build_children (c : cfg) (maps : list imap) : list obs :=
   else ch1 ++ map col_child (collector_names c).
 
 (* --- completion order of the body nodes and the collectors ------------------------- *)
-Fixpoint dedup (l : list nat) : list nat :=
-  match l with [] => [] | x :: r => x :: remove Nat.eq_dec x (dedup r) end.
-
-(* every list of naturals induces a complete schedule of n body nodes: the mentioned ones
-   first, in the order of first mention, then the rest *)
-Definition sched (n : nat) (order : list nat) : list nat :=
-  dedup (filter (fun i => i <? n) order ++ seq 0 n).
+(* the body nodes named in [order] complete first, in that order (a name that is out of range
+   or repeated changes nothing), then whichever are still outstanding *)
+Definition sched (n : nat) (order : list nat) : list nat := order ++ seq 0 n.
 
 Fixpoint set_nth {A} (n : nat) (x : A) (l : list A) : list A :=
   match l, n with
@@ -465,23 +461,32 @@ Definition spec_children (c : cfg) (i : inputs) : list obs :=
 Definition count_kind (k : string) (ch : list obs) : nat :=
   List.length (filter (fun o => match o with OL (OS k' :: _) => String.eqb k k' | _ => false end) ch).
 
-(* well-formed loop layout: iterated / zipped / broadcast is a partition of the body's
-   inputs, the column map renames existing outputs, and all column names are distinct *)
+(* well-formed loop layout: something is looped, iterated / zipped / broadcast is a partition
+   of the body's inputs, the column map renames existing outputs, and all column names are
+   distinct *)
 Definition wf_cfg (c : cfg) : bool :=
+  negb (isnil (looped c)) &&
   nodupb String.eqb (in_labels c) && nodupb String.eqb (looped c) &&
   subsetb String.eqb (looped c) (in_labels c) &&
   nodupb String.eqb (looped c ++ out_cols c) &&
   subsetb String.eqb (map fst (c_map c)) (b_outs (c_body c)).
 
-(* all inputs hold data of the right shape: lists on looped labels, scalars elsewhere *)
-Definition shaped (c : cfg) (i : inputs) : bool :=
+(* the inputs are those of the loop node and every value present has the right shape: lists
+   on looped labels, scalars elsewhere *)
+Definition typed (c : cfg) (i : inputs) : bool :=
   list_eqb String.eqb (map fst i) (in_labels c) &&
   forallb (fun lv : string * option ival =>
              match snd lv with
              | Some (IL _) => mems (fst lv) (looped c)
              | Some (IZ _) => negb (mems (fst lv) (looped c))
-             | None => false
+             | None => true
              end) i.
+(* ... and every input holds data *)
+Definition shaped (c : cfg) (i : inputs) : bool := typed c i && all_data i.
+
+(* the node function returns one value per output label *)
+Definition body_total (c : cfg) : Prop :=
+  forall a, List.length (b_fun (c_body c) a) = List.length (b_outs (c_body c)).
 
 Definition mixed_zero_in (c : cfg) (i : inputs) : bool :=
   mixed_zero (c_iter c) (lens i (c_iter c)) (c_zip c) (lens i (c_zip c)).
@@ -498,7 +503,7 @@ Definition toy (k : nat) : body :=
                 b_fun := fun x => [zn x 0 + 10 * zn x 1; zn x 0 * zn x 1] |}
   | 2%nat => {| b_ins := [("a", None); ("b", None); ("c", Some 1)]; b_outs := ["t"];
                 b_fun := fun x => [zn x 0 + 10 * zn x 1 + 100 * zn x 2] |}
-  | 3%nat => {| b_ins := [("a", None); ("b", Some 2); ("c", None); ("d", Some 3)]; b_outs := ["u"; "v"];
+  | 3%nat => {| b_ins := [("a", None); ("b", None); ("c", Some 2); ("d", Some 3)]; b_outs := ["u"; "v"];
                 b_fun := fun x => [zn x 0 + 10 * zn x 1 + 100 * zn x 2 + 1000 * zn x 3; zn x 0 - zn x 3] |}
   | 4%nat => {| b_ins := [("a", Some 4); ("b", Some 6)]; b_outs := ["a"; "q"];
                 b_fun := fun x => [zn x 0 + zn x 1; zn x 0 * zn x 1 + 1] |}
@@ -564,13 +569,13 @@ Definition scenario (c : cfg) (steps : list step) : obs :=
 Definition shortcut (b : body) (zip : bool) (held : list (string * option Z))
            (loops : list (string * list Z)) (colmap : list (string * string)) (order : list nat) : obs :=
   if existsb (fun l => negb (mems l (map fst b.(b_ins)))) (map fst loops) then
-    OL [OS "exc"; OS (exc_class ValueErrorNotInput); OS (exc_tag ValueErrorNotInput)]
+    OL [OS "exc"; OS (exc_class ValueErrorNotInput); OS (exc_tag ValueErrorNotInput); ob false; OL []]
   else
     let c := {| c_body := b; c_iter := if zip then [] else map fst loops;
                 c_zip := if zip then map fst loops else []; c_df := true; c_map := colmap;
                 c_cache := true |} in
     match create c with
-    | Err e => OL [OS "exc"; OS (exc_class e); OS (exc_tag e)]
+    | Err e => OL [OS "exc"; OS (exc_class e); OS (exc_tag e); ob false; OL []]
     | Ok st =>
         let st1 := fold_left (fun s (lv : string * option Z) =>
                                 if mems (fst lv) (map fst loops) then s
